@@ -2,26 +2,15 @@
 package c05
 
 import (
-	"bytes"
 	"fmt"
-	"io"
-	"log"
-	"os"
-	"sort"
 	"strings"
 	"testing"
-	"time"
 
-	"github.com/la5nta/wl2k-go/fbb"
 	"pgregory.net/rapid"
 
-	"verif/internal/gen"
 	"verif/internal/harness"
-	"verif/internal/membox"
 	"verif/internal/msggen"
-	"verif/internal/ref/b2f"
-	"verif/internal/ref/secure"
-	"verif/internal/stream"
+	. "verif/internal/peerscen"
 )
 
 func TestMain(m *testing.M) {
@@ -34,492 +23,10 @@ func TestMain(m *testing.M) {
 	harness.Main(m)
 }
 
-type Lib struct {
-	Call     string            `json:"call"`
-	Target   string            `json:"target"`
-	Locator  string            `json:"locator"`
-	UAName   string            `json:"ua_name"`
-	UAVer    string            `json:"ua_ver"`
-	Aux      []string          `json:"aux,omitempty"`
-	Password string            `json:"password,omitempty"`
-	AuxPw    map[string]string `json:"aux_pw,omitempty"`
-	MOTD     []string          `json:"motd,omitempty"`
-	Queue    []msggen.Spec     `json:"queue"`
-	Policy   map[string]string `json:"policy,omitempty"` // answers to the peer's MIDs
-	Batched  bool              `json:"batched"`
-	NoHandler bool             `json:"no_handler,omitempty"`
-	Sched    []int             `json:"sched"`
-	Gzip     bool              `json:"gzip"`
-}
-
-type Peer struct {
-	Master     bool              `json:"master"`
-	Call       string            `json:"call"`
-	Locator    string            `json:"locator"`
-	SID        string            `json:"sid"`
-	FW         []string          `json:"fw"`
-	MOTD       []string          `json:"motd,omitempty"`
-	Challenge  string            `json:"challenge,omitempty"`
-	Prompt     string            `json:"prompt,omitempty"`
-	Queue      []msggen.Spec     `json:"queue"`
-	Titles     map[string]string `json:"titles,omitempty"`
-	Dup        map[string]bool   `json:"dup,omitempty"`
-	Answers    map[string]string `json:"answers,omitempty"`
-	BlockSizes []int             `json:"block_sizes"`
-	PreBlock   []string          `json:"pre_block,omitempty"`
-	MidBlock   []string          `json:"mid_block,omitempty"`
-	PreFS      []string          `json:"pre_fs,omitempty"`
-	EarlyFQ    bool              `json:"early_fq"`
-	HoldIsAccept bool            `json:"hold_is_accept,omitempty"`
-	Gzip       bool              `json:"gzip"`
-	GzipMsgs   bool              `json:"gzip_msgs"`
-	Sched      []int             `json:"sched"`
-}
-
-type Case struct {
-	Lib  Lib  `json:"lib"`
-	Peer Peer `json:"peer"`
-}
-
-func precedence(subject string) int {
-	switch {
-	case strings.Contains(subject, "//WL2K Z/"):
-		return 0
-	case strings.Contains(subject, "//WL2K O/"):
-		return 1
-	case strings.Contains(subject, "//WL2K P/"):
-		return 2
-	}
-	return 3
-}
-
-var discard = log.New(io.Discard, "", 0)
-
-type outcome struct {
-	transferred int
-	choices     map[string]int
-}
-
-func run(c Case) (sig, msg string, oc outcome) {
-	if c.Lib.Gzip {
-		os.Setenv("GZIP_EXPERIMENT", "1")
-	} else {
-		os.Unsetenv("GZIP_EXPERIMENT")
-	}
-	box := membox.New(c.Lib.Call)
-	exp := b2f.Expect{Call: strings.ToUpper(c.Lib.Call), Target: strings.ToUpper(c.Lib.Target), Locator: c.Lib.Locator, UAName: c.Lib.UAName, UAVer: c.Lib.UAVer,
-		Gzip: c.Lib.Gzip, MOTD: c.Lib.MOTD, WantsMsg: !c.Lib.NoHandler}
-	libBytes := map[string][]byte{}
-	for _, spec := range c.Lib.Queue {
-		m, err := spec.Build()
-		if err != nil {
-			return "harness-generator", err.Error(), oc
-		}
-		if err := m.Validate(); err != nil {
-			return "harness-generator", fmt.Sprintf("invalid message %s: %v", spec.MID, err), oc
-		}
-		box.Add(m)
-		b, _ := m.Bytes()
-		libBytes[spec.MID] = b
-		exp.Queue = append(exp.Queue, b2f.LibMsg{MID: spec.MID, Bytes: b, Precedence: precedence(spec.Subject)})
-	}
-	if c.Lib.NoHandler {
-		exp.Queue = nil
-	}
-	for mid, a := range c.Lib.Policy {
-		box.Policy[mid] = fbb.ProposalAnswer(a[0])
-	}
-	// expected ;FW line
-	fw := ";FW: " + fbb.AddressFromString(c.Lib.Call).Addr
-	challenge := ""
-	if c.Peer.Master {
-		challenge = c.Peer.Challenge
-	}
-	for _, a := range c.Lib.Aux {
-		addr := fbb.AddressFromString(a).Addr
-		if pw := c.Lib.AuxPw[a]; challenge != "" && pw != "" {
-			fw += " " + addr + "|" + secure.Response(challenge, pw)
-		} else {
-			fw += " " + addr
-		}
-	}
-	exp.FWLine = fw
-	if challenge != "" {
-		exp.PR = secure.Response(challenge, c.Lib.Password)
-	}
-
-	pc := b2f.Config{Master: c.Peer.Master, Call: c.Peer.Call, Locator: c.Peer.Locator, SID: c.Peer.SID, FW: c.Peer.FW, MOTD: c.Peer.MOTD,
-		Challenge: challenge, Prompt: c.Peer.Prompt, Dup: c.Peer.Dup, Answers: c.Peer.Answers, BlockSizes: c.Peer.BlockSizes,
-		PreBlock: c.Peer.PreBlock, MidBlock: c.Peer.MidBlock, PreFS: c.Peer.PreFS, EarlyFQ: c.Peer.EarlyFQ, HoldIsAccept: c.Peer.HoldIsAccept, Gzip: c.Peer.Gzip, Exp: exp}
-	peerBytes := map[string][]byte{}
-	for _, spec := range c.Peer.Queue {
-		m, err := spec.Build()
-		if err != nil {
-			return "harness-generator", err.Error(), oc
-		}
-		b, _ := m.Bytes()
-		peerBytes[spec.MID] = b
-		code := byte('C')
-		if c.Peer.GzipMsgs {
-			code = 'D'
-		}
-		title := c.Peer.Titles[spec.MID]
-		if title == "" {
-			title = spec.Subject
-		}
-		pc.Queue = append(pc.Queue, b2f.Out{MID: spec.MID, Title: title, Data: b, Code: code})
-	}
-
-	var h fbb.MBoxHandler
-	if !c.Lib.NoHandler {
-		h = box.Handler(c.Lib.Batched)
-	}
-	s := fbb.NewSession(c.Lib.Call, c.Lib.Target, c.Lib.Locator, h)
-	s.IsMaster(!c.Peer.Master)
-	s.SetLogger(discard)
-	s.SetUserAgent(fbb.UserAgent{Name: c.Lib.UAName, Version: c.Lib.UAVer})
-	if len(c.Lib.MOTD) > 0 {
-		s.SetMOTD(c.Lib.MOTD...)
-	}
-	for _, a := range c.Lib.Aux {
-		s.AddAuxiliaryAddress(fbb.AddressFromString(a))
-	}
-	if challenge != "" {
-		s.SetSecureLoginHandleFunc(func(addr fbb.Address) (string, error) {
-			if strings.EqualFold(addr.Addr, fbb.AddressFromString(c.Lib.Call).Addr) {
-				return c.Lib.Password, nil
-			}
-			for _, a := range c.Lib.Aux {
-				if fbb.AddressFromString(a).Addr == addr.Addr {
-					return c.Lib.AuxPw[a], nil
-				}
-			}
-			return "", nil
-		})
-	}
-	el, ep := stream.Pair()
-	el.SetReadSchedule(c.Lib.Sched)
-	ep.SetReadSchedule(c.Peer.Sched)
-
-	var stats fbb.TrafficStats
-	var lerr error
-	var pres b2f.Result
-	var psig, pmsg string
-	done := make(chan struct{}, 2)
-	hung, kind := harness.Watch(90*time.Second, func() {
-		go func() {
-			defer func() { done <- struct{}{} }()
-			psig, pmsg = harness.Catch(func() { stats, lerr = s.Exchange(el) })
-			if psig != "" {
-				el.Close()
-			}
-		}()
-		go func() {
-			defer func() { done <- struct{}{} }()
-			pres = b2f.Run(ep, pc)
-		}()
-		<-done
-		<-done
-	})
-	if hung {
-		harness.Record("hang:exchange-"+kind, c, "Exchange with the reference peer did not return")
-		harness.ExitHung()
-	}
-	if psig != "" {
-		return psig, pmsg, oc
-	}
-	oc.choices = pres.Choices
-	tail := func() string {
-		w := el.Written()
-		if len(w) > 300 {
-			w = w[len(w)-300:]
-		}
-		return fmt.Sprintf(" [last bytes written by the Session: %q; Exchange error: %v; peer error: %v]", w, lerr, pres.Err)
-	}
-	if pres.Nonconform != "" {
-		return "nonconforming-output", "the Session emitted a non-conforming byte sequence: " + pres.Nonconform + tail(), oc
-	}
-	if el.Deadlocked() {
-		return "deadlock-with-conforming-peer", "Session and conforming peer both wait for each other" + tail(), oc
-	}
-	if lerr != nil {
-		return "rejects-conforming-peer", fmt.Sprintf("Exchange failed against a conforming peer: %v (peer: %v)", lerr, pres.Err) + tail(), oc
-	}
-	if pres.Err != nil {
-		return "peer-transport-error", fmt.Sprintf("peer saw %v although Exchange returned nil", pres.Err) + tail(), oc
-	}
-	// ---- outcome -----------------------------------------------------------------------------
-	// library -> peer
-	var wantAcc, wantRej, wantDef []string
-	if !c.Lib.NoHandler {
-		for _, spec := range c.Lib.Queue {
-			tok := c.Peer.Answers[spec.MID]
-			if tok == "" {
-				tok = "+"
-			}
-			switch tok[0] {
-			case '+', 'Y', 'y', '!', 'A', 'a':
-				wantAcc = append(wantAcc, spec.MID)
-			case '-', 'N', 'n', 'R', 'r':
-				wantRej = append(wantRej, spec.MID)
-			default:
-				wantDef = append(wantDef, spec.MID)
-			}
-		}
-	}
-	var got []string
-	for _, r := range pres.Received {
-		got = append(got, r.MID)
-	}
-	if !sameSet(got, wantAcc) {
-		return "outcome-peer-received", fmt.Sprintf("peer received %v, accepted %v", got, wantAcc), oc
-	}
-	if !sameSet(stats.Sent, wantAcc) {
-		return "outcome-stats-sent", fmt.Sprintf("stats.Sent %v, accepted %v", stats.Sent, wantAcc), oc
-	}
-	for _, mid := range wantAcc {
-		if box.Sent[mid] != 1 || box.Rejected[mid] != 0 || box.Deferred[mid] != 0 {
-			return "outcome-sent-report", fmt.Sprintf("accepted %s: SetSent(false)x%d SetSent(true)x%d SetDeferred x%d", mid, box.Sent[mid], box.Rejected[mid], box.Deferred[mid]), oc
-		}
-	}
-	for _, mid := range wantRej {
-		if box.Rejected[mid] != 1 || box.Sent[mid] != 0 {
-			return "outcome-reject-report", fmt.Sprintf("rejected %s: SetSent(true)x%d SetSent(false)x%d", mid, box.Rejected[mid], box.Sent[mid]), oc
-		}
-	}
-	for _, mid := range wantDef {
-		if box.Deferred[mid] != 1 || box.Sent[mid] != 0 || box.Rejected[mid] != 0 {
-			return "outcome-defer-report", fmt.Sprintf("deferred %s: SetDeferred x%d, sent %d, rejected %d", mid, box.Deferred[mid], box.Sent[mid], box.Rejected[mid]), oc
-		}
-	}
-	if len(box.Sent)+len(box.Rejected)+len(box.Deferred) != len(wantAcc)+len(wantRej)+len(wantDef) {
-		return "outcome-extra-report", fmt.Sprintf("handler saw sent=%v rejected=%v deferred=%v", box.Sent, box.Rejected, box.Deferred), oc
-	}
-	// peer -> library
-	var pAcc []string
-	for _, spec := range c.Peer.Queue {
-		pol := c.Lib.Policy[spec.MID]
-		if c.Lib.NoHandler {
-			pol = "="
-		}
-		switch pol {
-		case "-", "=":
-			if len(box.Inbox[spec.MID]) != 0 {
-				return "outcome-refused-was-delivered", fmt.Sprintf("%s was answered %q but delivered", spec.MID, pol), oc
-			}
-		default:
-			pAcc = append(pAcc, spec.MID)
-			if len(box.Inbox[spec.MID]) != 1 {
-				return "outcome-accepted-not-delivered-once", fmt.Sprintf("accepted %s was handed to the handler %d times", spec.MID, len(box.Inbox[spec.MID])), oc
-			}
-			if !bytes.Equal(box.Inbox[spec.MID][0], peerBytes[spec.MID]) {
-				return "outcome-delivered-differs", fmt.Sprintf("%s delivered with different content", spec.MID), oc
-			}
-		}
-	}
-	if !sameSet(stats.Received, pAcc) || !sameSet(pres.SentOK, pAcc) {
-		return "outcome-received", fmt.Sprintf("stats.Received %v, peer transferred %v, expected %v", stats.Received, pres.SentOK, pAcc), oc
-	}
-	// forwarders handed to the handler: the peer's list without hashes
-	var wantFW []string
-	for _, f := range c.Peer.FW {
-		wantFW = append(wantFW, fbb.AddressFromString(strings.Split(f, "|")[0]).String())
-	}
-	for _, e := range box.Events {
-		if e.Kind == "outbound" && fmt.Sprint(e.FW) != fmt.Sprint(wantFW) {
-			return "outcome-forwarders", fmt.Sprintf("GetOutbound called with %v, peer announced %v", e.FW, c.Peer.FW), oc
-		}
-	}
-	if el.CloseCount() < 1 {
-		return "conn-not-closed", "Exchange did not close the connection", oc
-	}
-	oc.transferred = len(wantAcc) + len(pAcc)
-	return "", "", oc
-}
-
-func sameSet(a, b []string) bool {
-	a, b = append([]string(nil), a...), append([]string(nil), b...)
-	sort.Strings(a)
-	sort.Strings(b)
-	return fmt.Sprint(a) == fmt.Sprint(b)
-}
-
-// ---- generator --------------------------------------------------------------------------------
-
-var calls = []string{"LA5NTA", "N0CALL", "W1AW-5", "LA1B-10", "SM0XYZ", "DL1ABC-15", "la3f"}
-
-func comment(t *rapid.T, label string, to, from string, mids []string) string {
-	switch rapid.IntRange(0, 3).Draw(t, label+"_kind") {
-	case 0:
-		mid := "ABCDEFGHIJKL"
-		if len(mids) > 0 {
-			mid = mids[rapid.IntRange(0, len(mids)-1).Draw(t, label+"_mid")]
-		}
-		return fmt.Sprintf(";PM: %s %s %d %s %s", to, mid, rapid.IntRange(1, 99999).Draw(t, label+"_sz"), from, rapid.StringMatching(`[A-Za-z0-9][A-Za-z0-9 ]{0,20}`).Draw(t, label+"_subj"))
-	case 1:
-		return ";WARNING: " + rapid.StringMatching(`[A-Za-z0-9 .,:]{0,30}`).Draw(t, label+"_w")
-	default:
-		return ";" + rapid.StringMatching(`[ -~]{0,40}`).Draw(t, label+"_c")
-	}
-}
-
-func genCase(t *rapid.T) Case {
-	var c Case
-	il := rapid.IntRange(0, len(calls)-1).Draw(t, "libcall")
-	ip := rapid.IntRange(0, len(calls)-2).Draw(t, "peercall")
-	if ip >= il {
-		ip++
-	}
-	c.Lib.Call, c.Peer.Call = calls[il], strings.ToUpper(calls[ip])
-	c.Lib.Target = c.Peer.Call
-	if rapid.Bool().Draw(t, "target_lower") {
-		c.Lib.Target = strings.ToLower(c.Lib.Target)
-	}
-	c.Lib.Locator = rapid.SampledFrom([]string{"JO29PJ", "JP20", "", "FN31pr"}).Draw(t, "loc")
-	c.Peer.Locator = "JO59"
-	c.Lib.UAName = rapid.StringMatching(`[A-Za-z][A-Za-z0-9.]{0,11}`).Draw(t, "uan")
-	c.Lib.UAVer = rapid.StringMatching(`[0-9a-z][0-9a-z.]{0,7}`).Draw(t, "uav")
-	c.Lib.Sched, c.Peer.Sched = gen.Schedule(t, "lsched"), gen.Schedule(t, "psched")
-	c.Lib.Batched = rapid.Bool().Draw(t, "batched")
-	c.Lib.Gzip = rapid.IntRange(0, 2).Draw(t, "lgzip") == 0
-	c.Peer.Gzip = rapid.IntRange(0, 1).Draw(t, "pgzip") == 0
-	c.Peer.GzipMsgs = rapid.Bool().Draw(t, "pgzipmsgs")
-	c.Peer.Master = rapid.Bool().Draw(t, "peer_master")
-	c.Lib.NoHandler = rapid.IntRange(0, 9).Draw(t, "nohandler") == 0
-	naux := rapid.SampledFrom([]int{0, 0, 1, 2, 3}).Draw(t, "naux")
-	for i := 0; i < naux; i++ {
-		c.Lib.Aux = append(c.Lib.Aux, rapid.SampledFrom([]string{"LA9XYZ", "EMCOMM-1", "TAC1", "N0AUX", "SK0QO"}).Draw(t, "aux"))
-	}
-	// peer SID
-	author := rapid.StringMatching(`[A-Za-z][A-Za-z0-9 ]{0,9}[A-Za-z0-9]`).Draw(t, "sid_author")
-	ver := rapid.StringMatching(`[0-9][0-9.]{0,7}`).Draw(t, "sid_ver")
-	feats := rapid.SliceOfNDistinct(rapid.SampledFrom([]string{"A", "F", "H", "I", "J", "M", "W", "X", "B1"}), 0, 6, func(s string) string { return s }).Draw(t, "sid_feats")
-	pos := rapid.IntRange(0, len(feats)).Draw(t, "b2pos")
-	fl := append(append(append([]string{}, feats[:pos]...), "B2"), feats[pos:]...)
-	feat := strings.Join(fl, "")
-	if !strings.Contains(feat, "F") {
-		feat += "F"
-	}
-	if c.Peer.Gzip {
-		feat += "G"
-	}
-	if rapid.IntRange(0, 4).Draw(t, "sid2") == 0 {
-		c.Peer.SID = fmt.Sprintf("[%s-%s$]", author, feat)
-	} else {
-		c.Peer.SID = fmt.Sprintf("[%s-%s-%s$]", author, ver, feat)
-	}
-	// forwarders announced by the peer
-	switch rapid.IntRange(0, 3).Draw(t, "fwkind") {
-	case 0:
-		if c.Peer.Master {
-			c.Peer.FW = nil // a CMS sends no ;FW line
-		} else {
-			c.Peer.FW = []string{c.Peer.Call}
-		}
-	case 1:
-		c.Peer.FW = []string{c.Peer.Call}
-	case 2:
-		c.Peer.FW = []string{c.Peer.Call, "LA7AUX|" + rapid.StringMatching(`[0-9]{8}`).Draw(t, "fwhash")}
-	default:
-		c.Peer.FW = []string{c.Peer.Call + "|" + rapid.StringMatching(`[0-9a-f]{8}`).Draw(t, "fwhash"), "TAC9"}
-	}
-	used := map[string]bool{}
-	nl := rapid.SampledFrom([]int{0, 1, 2, 3, 5, 6, 7, 11}).Draw(t, "nlib")
-	for i := 0; i < nl; i++ {
-		c.Lib.Queue = append(c.Lib.Queue, msggen.Gen(t, used, c.Lib.Call, c.Peer.Call, 3000))
-	}
-	np := rapid.SampledFrom([]int{0, 1, 2, 3, 5, 6, 7}).Draw(t, "npeer")
-	for i := 0; i < np; i++ {
-		c.Peer.Queue = append(c.Peer.Queue, msggen.Gen(t, used, c.Peer.Call, c.Lib.Call, 3000))
-	}
-	var libMids, peerMids []string
-	for _, q := range c.Lib.Queue {
-		libMids = append(libMids, q.MID)
-	}
-	for _, q := range c.Peer.Queue {
-		peerMids = append(peerMids, q.MID)
-	}
-	// handshake text
-	if c.Peer.Master {
-		nm := rapid.IntRange(0, 3).Draw(t, "nmotd")
-		for i := 0; i < nm; i++ {
-			c.Peer.MOTD = append(c.Peer.MOTD, rapid.StringMatching(`[A-Za-z0-9*][ -=?-~]{0,50}[A-Za-z0-9.!]`).Draw(t, "motd"))
-		}
-		c.Peer.Prompt = rapid.StringMatching(`[A-Za-z0-9][A-Za-z0-9 -]{0,15}`).Draw(t, "prompt") + ">"
-		if rapid.IntRange(0, 2).Draw(t, "pq") == 0 {
-			c.Peer.Challenge = rapid.StringMatching(`[0-9]{8}`).Draw(t, "challenge")
-			c.Lib.Password = rapid.StringMatching(`[!-~]{1,12}`).Draw(t, "password")
-			c.Lib.AuxPw = map[string]string{}
-			for _, a := range c.Lib.Aux {
-				if rapid.Bool().Draw(t, "auxpw") {
-					c.Lib.AuxPw[a] = rapid.StringMatching(`[A-Za-z0-9]{1,10}`).Draw(t, "auxpwv")
-				}
-			}
-		}
-	} else {
-		nm := rapid.IntRange(0, 2).Draw(t, "nmotd")
-		for i := 0; i < nm; i++ {
-			c.Lib.MOTD = append(c.Lib.MOTD, rapid.StringMatching(`[A-EG-Za-z0-9][ -=?-~]{0,50}[A-Za-z0-9.!]`).Draw(t, "lmotd"))
-		}
-	}
-	// answers
-	forms := []string{"+", "Y", "y", "!0", "A0", "a0", "-", "N", "n", "R", "r", "=", "L", "l"}
-	if rapid.Bool().Draw(t, "nondefault_answers") {
-		c.Peer.Answers = map[string]string{}
-		for _, mid := range libMids {
-			tok := rapid.SampledFrom(forms).Draw(t, "answer")
-			if rapid.IntRange(0, 1).Draw(t, "plus_bias") == 0 {
-				tok = rapid.SampledFrom(forms[:6]).Draw(t, "answer_acc")
-			}
-			c.Peer.Answers[mid] = tok
-		}
-	}
-	harness.Excluded("answer-H-treated-as-defer") // generator never draws H/h, see assumptions
-	if rapid.Bool().Draw(t, "lib_policy") {
-		c.Lib.Policy = map[string]string{}
-		for _, mid := range peerMids {
-			if a := rapid.SampledFrom([]string{"+", "+", "-", "="}).Draw(t, "lpol"); a != "+" {
-				c.Lib.Policy[mid] = a
-			}
-		}
-	}
-	// encoding choices
-	switch rapid.IntRange(0, 3).Draw(t, "bs_kind") {
-	case 0:
-		c.Peer.BlockSizes = []int{250}
-	case 1:
-		c.Peer.BlockSizes = []int{rapid.SampledFrom([]int{1, 2, 125, 255, 256}).Draw(t, "bs")}
-	default:
-		c.Peer.BlockSizes = rapid.SliceOfN(rapid.IntRange(1, 256), 1, 6).Draw(t, "bss")
-	}
-	if rapid.IntRange(0, 2).Draw(t, "c1") == 0 {
-		for i := rapid.IntRange(1, 2).Draw(t, "npre"); i > 0; i-- {
-			c.Peer.PreBlock = append(c.Peer.PreBlock, comment(t, "pre", c.Lib.Call, c.Peer.Call, peerMids))
-		}
-	}
-	if rapid.IntRange(0, 3).Draw(t, "c2") == 0 {
-		c.Peer.MidBlock = []string{comment(t, "mid", c.Lib.Call, c.Peer.Call, peerMids)}
-	}
-	if rapid.IntRange(0, 2).Draw(t, "c3") == 0 {
-		c.Peer.PreFS = []string{comment(t, "prefs", c.Lib.Call, c.Peer.Call, libMids)}
-	}
-	c.Peer.EarlyFQ = rapid.Bool().Draw(t, "early_fq")
-	if len(peerMids) > 0 && rapid.IntRange(0, 3).Draw(t, "dup") == 0 {
-		c.Peer.Dup = map[string]bool{peerMids[rapid.IntRange(0, len(peerMids)-1).Draw(t, "dupmid")]: true}
-	}
-	if rapid.IntRange(0, 3).Draw(t, "titles") == 0 {
-		c.Peer.Titles = map[string]string{}
-		for _, mid := range peerMids {
-			c.Peer.Titles[mid] = rapid.StringMatching(`[!-~][ -~]{0,78}[!-~]`).Draw(t, "title")
-		}
-	}
-	return c
-}
-
-func account(c Case, oc outcome) {
+func account(c Case, oc Outcome) {
 	harness.Eval()
 	nondefault := 0
-	for k, v := range oc.choices {
+	for k, v := range oc.Choices {
 		harness.LabelN("choice:"+k, v)
 		if k != "answer:+" {
 			nondefault += v
@@ -549,11 +56,11 @@ func account(c Case, oc outcome) {
 	if len(c.Lib.Queue) > 5 {
 		harness.Label("library-blocks>=2")
 	}
-	if oc.transferred > 0 && nondefault > 0 {
+	if oc.Transferred > 0 && nondefault > 0 {
 		harness.NonTrivial(harness.Hash(fmt.Sprintf("%+v", c)))
 		harness.Label("nontrivial")
 	}
-	if harness.WantSample() && oc.transferred > 1 && nondefault > 1 {
+	if harness.WantSample() && oc.Transferred > 1 && nondefault > 1 {
 		var lq, pq []string
 		for _, m := range c.Lib.Queue {
 			lq = append(lq, m.MID+":"+c.Peer.Answers[m.MID])
@@ -568,9 +75,9 @@ func account(c Case, oc outcome) {
 
 func TestProp(t *testing.T) {
 	rapid.Check(t, func(t *rapid.T) {
-		c := genCase(t)
+		c := GenCase(t)
 		harness.Begin(c)
-		sig, msg, oc := run(c)
+		sig, msg, oc := Run(c)
 		harness.End()
 		account(c, oc)
 		if sig != "" {
@@ -591,7 +98,7 @@ func TestKnownProbe(t *testing.T) {
 		Lib:  Lib{Call: "LA5NTA", Target: "N0CALL", Locator: "JO29PJ", UAName: "wl2kgo", UAVer: "0.1a", Queue: []msggen.Spec{spec}},
 		Peer: Peer{Master: true, Call: "N0CALL", Locator: "JO59", SID: "[FBB-7.0-B2FHM$]", FW: []string{"N0CALL"}, Prompt: "N0CALL>", Answers: map[string]string{"HOLDME": "H"}, BlockSizes: []int{250}, HoldIsAccept: true},
 	}
-	sig, _, _ := run(c)
+	sig, _, _ := Run(c)
 	fmt.Printf("KNOWN-PROBE sig=answer-H-treated-as-defer reproduced=%v\n", sig != "")
 }
 
@@ -601,7 +108,7 @@ func TestReplay(t *testing.T) {
 		if _, err := harness.ReplayCase(f, &c); err != nil {
 			t.Fatalf("%s: %v", f, err)
 		}
-		sig, msg, _ := run(c)
+		sig, msg, _ := Run(c)
 		harness.Eval()
 		if sig != "" {
 			harness.Fail(t, sig, c, "replay %s: %s", f, msg)
